@@ -10,7 +10,7 @@ run_demo() {
   elif [ -f "$MD/demo.rs" ]; then
     [ -f "$BD/Cargo.toml" ] || /root/rsvendor/mk.sh "$WT" "$BD" >/dev/null
     cp "$MD/demo.rs" "$BD/demo.rs"
-    (cd "$BD" && timeout 900 cargo run --offline --bin demo >/tmp/demo.out 2>&1); return $?
+    (cd "$BD" && RUSTFLAGS=-Awarnings timeout 1500 cargo run --offline --bin demo >/tmp/demo.out 2>&1); return $?
   else
     for t in "$MD"/test_*.py; do (cd "$WT" && FORCE_BINJA_MOCK=1 timeout 600 /venv/bin/python -m pytest -q -p no:cacheprovider "$t" >/tmp/demo.out 2>&1); return $?; done
   fi
